@@ -72,6 +72,80 @@ def check_history(ctx, p):
 
 
 
+def scan_spec(f):
+    """what a repetition scan covers: {'first', 'last', 'step', 'key', 'needed'}; recognised spellings: an index loop from
+    size-2 down to 0 with a nested or merged test, std::find over the reverse range that skips the newest entry.
+    Anything else is unrecognised (analysis broken), never a guess."""
+    from rules.norm import Norm
+    nm = Norm(f)
+    loops = [n for n in f.all_nodes() if n['k'] == 'ForStmt']
+    rets = [n for n in f.all_nodes() if n['k'] == 'ReturnStmt']
+    if len(loops) == 1:
+        init, _cv, cond, inc, body = loops[0]['ch']
+        iv = [x for x in walk(init) if x['k'] == 'VarDecl']
+        if len(iv) != 1 or cond is None or inc is None:
+            raise AnalysisBroken('C07: scan loop of %s not recognised' % f.name)
+        v = iv[0]['name']
+        base, off = nm.lin(kids(iv[0])[0])
+        first = 'size%+d' % off if base in ('_history.size()', 'int(_history.size())') else '%s%+d' % (base, off)
+        ca = Norm(f, inline=False).atom(cond)
+        last = {('ge', v, 0): 0, ('ge', v, 1): 1}.get(ca, str(ca))
+        i = strip_casts(inc)
+        step = None
+        if i['k'] == 'UnaryOperator' and i.get('op') == '--':
+            step = 1
+        elif i['k'] == 'CompoundAssignOperator' and i.get('op') == '-=':
+            step = const_of(strip_casts(kids(i)[1]))
+        # the `return true` inside the loop and what governs it
+        hit = [r for r in rets if f.inside(r, body) and const_of(strip_casts(kids(r)[0])) == 1]
+        miss = [r for r in rets if not f.inside(r, loops[0]) and const_of(strip_casts(kids(r)[0])) == 0]
+        if len(hit) != 1 or len(miss) != 1 or len(rets) != 2:
+            raise AnalysisBroken('C07: returns of %s not recognised' % f.name)
+        g = Norm(f).facts([(c, t) for c, t in guard_facts(f, hit[0]) if f.inside(c, body)])
+        keys = [a for a in g if a[0] == 'eq' and '_history[%s]' % v in a[1:]]
+        if len(keys) != 1:
+            raise AnalysisBroken('C07: key comparison of %s not recognised (%s)' % (f.name, sorted(map(str, g))))
+        key = [x for x in keys[0][1:] if x != '_history[%s]' % v][0]
+        rest = [a for a in g if a is not keys[0]]
+        needed = None
+        if not rest:
+            needed = 2
+        elif len(rest) == 1 and rest[0][0] == 'eq' and isinstance(rest[0][2], int) and rest[0][1].startswith('++('):
+            cvn = rest[0][1][3:-1]
+            cd = [x for x in f.all_nodes() if x['k'] == 'VarDecl' and x.get('name') == cvn]
+            start = const_of(strip_casts(kids(cd[0])[0])) if len(cd) == 1 and kids(cd[0]) else None
+            # starts at `start` occurrences (the current position), pre-incremented on every match, reported at == k
+            others = [x for x in f.all_nodes() if x['k'] in ('UnaryOperator', 'CompoundAssignOperator', 'BinaryOperator') and
+                      x.get('op') in ('++', '--', '+=', '-=', '=') and cn_(f, kids(x)[0]) == cvn]
+            if start is not None and len(others) == 1:
+                needed = rest[0][2] - start + 1
+        if needed is None:
+            raise AnalysisBroken('C07: occurrence counting of %s not recognised (%s)' % (f.name, sorted(map(str, rest))))
+        return {'first': first, 'last': last, 'step': step, 'key': key, 'needed': needed}
+    if not loops and len(rets) >= 1:
+        # return std::find(rbegin()+1, rend(), key) != rend();  optionally behind `if (size < 2) return false;`
+        main = [r for r in rets if const_of(strip_casts(kids(r)[0])) is None]
+        early = [r for r in rets if r not in main]
+        if len(main) == 1 and all(const_of(strip_casts(kids(r)[0])) == 0 for r in early):
+            a = nm.atom(kids(main[0])[0])
+            import re as _re
+            if a[0] == 'ne':
+                for x, y in ((a[1], a[2]), (a[2], a[1])):
+                    m = _re.fullmatch(r'find\(\(_history\.rbegin\(\)\+1\),_history\.rend\(\),(.*)\)', str(x))
+                    if m and y == '_history.rend()':
+                        for r in early:
+                            g = Norm(f).facts(guard_facts(f, r))
+                            if g not in (frozenset({('le', '_history.size()', 1)}), frozenset({('le', '_history.size()', 0)})):
+                                raise AnalysisBroken('C07: early exit of %s not recognised (%s)' % (f.name, sorted(map(str, g))))
+                        return {'first': 'size-2', 'last': 0, 'step': 1, 'key': m.group(1), 'needed': 2}
+    raise AnalysisBroken('C07: repetition scan of %s is written in a form the rule does not know' % f.name)
+
+
+def cn_(f, n):
+    from rules.norm import Norm
+    return Norm(f, inline=False).s(n)
+
+
 def check(ctx):
     p = ctx.prog()
     do = p.fn(POS + '::do_move')
@@ -83,45 +157,20 @@ def check(ctx):
     check_history(ctx, p)
 
     # ---- R2 scan shape -------------------------------------------------------------------------------------
-    shapes = {}
+    specs = {}
     for nm, thr in (('threefold_repetition', 3), ('is_repeated', 2)):
         f = p.fn(POS + '::' + nm)
         ctx.analysed(f)
-        loops = [n for n in f.all_nodes() if n['k'] == 'ForStmt']
-        ok = len(loops) == 1
-        shape = None
-        if ok:
-            init, _cv, cond, inc, body = loops[0]['ch']
-            iv = [x for x in walk(init) if x['k'] == 'VarDecl'][0]
-            start = canon(f, kids(iv)[0], inline=False).replace(' ', '')
-            cnd = canon(f, cond, inline=False).replace(' ', '')
-            step = canon(f, inc, inline=False).replace(' ', '')
-            cmps = [x for x in walk(body) if x['k'] == 'BinaryOperator' and x.get('op') == '==' and '_history' in canon(f, x, inline=False)]
-            cmp_s = canon(f, cmps[0], inline=False).replace(' ', '') if cmps else ''
-            shape = (start, cnd, step, cmp_s)
-            shapes[nm] = shape
-            start_ok = start in ('(_history.size()-2)', '(int(_history.size())-2)', '(_history_counter-2)') or \
-                start.replace('size()', 'S').replace('int(', '(') in ('((_history.S)-2)',)
-            ok = start_ok and cnd == '(i>=0)' and step == '--(i)' and \
-                cmp_s in ('(_history[i]==_zobrist_hash.get_key())', '(_zobrist_hash.get_key()==_history[i])')
-            # occurrences needed (counting the current position)
-            if nm == 'threefold_repetition':
-                cnt = [x for x in f.all_nodes() if x['k'] == 'VarDecl' and x.get('name') == 'count']
-                tests = [x for x in walk(body) if x['k'] == 'BinaryOperator' and x.get('op') == '==' and
-                         canon(f, kids(x)[0], inline=False).replace(' ', '') == '++(count)']
-                ok = ok and len(cnt) == 1 and const_of(strip_casts(kids(cnt[0])[0])) == 1 and len(tests) == 1 and \
-                    const_of(strip_casts(kids(tests[0])[1])) == thr
-            else:
-                rets = [x for x in walk(body) if x['k'] == 'ReturnStmt']
-                ok = ok and len(rets) == 1 and const_of(strip_casts(kids(rets[0])[0])) == 1
-            last = [x for x in kids(f.body) if x['k'] == 'ReturnStmt']
-            ok = ok and len(last) == 1 and const_of(strip_casts(kids(last[0])[0])) == 0
+        spec = scan_spec(f)
+        specs[nm] = spec
+        ok = spec is not None and spec['first'] == 'size-2' and spec['last'] == 0 and spec['key'] == '_zobrist_hash.get_key()' and \
+            spec['needed'] == thr and spec['step'] == 1
         ctx.ob('C07.R2.scan', nm, ok,
-               '%s scans earlier keys i = size-2 .. 0 against the current full key and needs %d occurrences including the current one (%s)'
-               % (nm, thr, shape), site=f.loc())
-    if len(shapes) == 2:
-        a, b = shapes['threefold_repetition'], shapes['is_repeated']
-        ctx.ob('C07.R2.sibling', 'threefold~is_repeated', a == b, 'both scans use the same start, bound, step and comparison', site='engine/position.cpp')
+               '%s compares every earlier key (index size-2 down to 0) with the current full key and needs %d occurrences including the '
+               'current one (%s)' % (nm, thr, spec), site=f.loc())
+    a, b = specs['threefold_repetition'], specs['is_repeated']
+    ctx.ob('C07.R2.sibling', 'threefold~is_repeated', all(a[k] == b[k] for k in ('first', 'last', 'step', 'key')),
+           'both scans cover the same entries with the same key', site='engine/position.cpp')
 
     # ---- R3 material whitelist + PCV packing ---------------------------------------------------------------------
     em = p.fn(POS + '::enough_material')
@@ -177,39 +226,39 @@ def check(ctx):
 
     # ---- R4 constants ---------------------------------------------------------------------------------------------
     r50 = p.fn(POS + '::rule50')
-    rr = [canon(r50, kids(n)[0], inline=False).replace(' ', '') for n in r50.all_nodes() if n['k'] == 'ReturnStmt']
-    ctx.ob('C07.R4.rule50', 'rule50', rr in (['(int(_half_move_counter)>=100)'], ['(_half_move_counter>=100)']),
-           'rule50() is half-move clock >= 100 (%s)' % rr, site=r50.loc())
+    from rules.norm import Norm as _N0
+    rr = [_N0(r50).disj(kids(n)[0]) for n in r50.all_nodes() if n['k'] == 'ReturnStmt']
+    ctx.ob('C07.R4.rule50', 'rule50', rr == [frozenset({frozenset({('ge', '_half_move_counter', 100)})})],
+           'rule50() is half-move clock >= 100 (%s)' % [sorted(map(sorted, x)) for x in rr], site=r50.loc())
+    from rules.norm import Norm as _N
     idr = p.fn(POS + '::is_draw')
-    dr = [canon(idr, kids(n)[0], inline=False).replace(' ', '') for n in idr.all_nodes() if n['k'] == 'ReturnStmt']
-    parts = sorted(dr[0].strip('()').replace('||', '|').split('|')) if dr else []
-    ctx.ob('C07.R4.is-draw', 'is_draw', sorted(x.strip('()') for x in parts) == sorted(['rule50', 'threefold_repetition', '!(enough_material']) or
-           (dr and set(re_calls(idr)) == {'rule50', 'threefold_repetition', 'enough_material'} and '!(enough_material())' in dr[0] and '&&' not in dr[0]),
-           'is_draw() = rule50 || threefold_repetition || !enough_material (%s)' % dr, site=idr.loc())
+    dr = [_N(idr).disj(kids(n)[0]) for n in idr.all_nodes() if n['k'] == 'ReturnStmt']
+    want_d = frozenset({frozenset({('truthy', 'rule50()', True)}), frozenset({('truthy', 'threefold_repetition()', True)}),
+                        frozenset({('truthy', 'enough_material()', False)})})
+    ctx.ob('C07.R4.is-draw', 'is_draw', dr == [want_d],
+           'is_draw() = rule50 || threefold_repetition || !enough_material (%s)' % [sorted(map(sorted, x)) for x in dr], site=idr.loc())
     hm = p.field(POS, '_half_move_counter')
     ctx.note('information: _half_move_counter is %s; it is incremented without saturation, so after 255 reversible plies it wraps '
              '(rule50 has been true since ply 100; a GUI normally ends the game there)' % hm['t'])
 
     # ---- R5 DECISION is_checkmate / is_stalemate -------------------------------------------------------------------
+    from rules.norm import Norm
     for nm, want_neg in (('is_checkmate', False), ('is_stalemate', True)):
         f = p.fn(POS + '::' + nm)
         ctx.analysed(f)
-        gm = [n for n, cfid, c in f.calls() if c == 'engine::generate_moves']
         rets = [n for n in f.all_nodes() if n['k'] == 'ReturnStmt']
-        ok = len(gm) == 1 and len(rets) == 1 and canon(f, kids(gm[0])[2], inline=False) == '_current_side'
+        ok = len(rets) == 1
         if ok:
-            e = strip_casts(kids(rets[0])[0])
-            ok = e['k'] == 'BinaryOperator' and e.get('op') == '&&'
+            d = Norm(f, accessors=True).disj(kids(rets[0])[0])
+            ok = len(d) == 1
             if ok:
-                a, b = [strip_casts(x) for x in kids(e)]
-                a_s = canon(f, a, inline=False).replace(' ', '')
-                b_s = canon(f, b, inline=False).replace(' ', '')
-                ok = a_s in ('(begin==end)', '(end==begin)') and \
-                    b_s == ('!(is_in_check(_current_side))' if want_neg else 'is_in_check(_current_side)')
-                # begin/end really are the generated list
-                endd = [x for x in f.all_nodes() if x['k'] == 'VarDecl' and x.get('name') == 'end']
-                ok = ok and endd and strip_casts(kids(endd[0])[0]) is gm[0] and \
-                    canon(f, kids(gm[0])[3], inline=False) == 'begin'
+                c = next(iter(d))
+                eqs = [a for a in c if a[0] == 'eq']
+                chk = [a for a in c if a[0] == 'truthy']
+                ok = len(c) == 2 and len(eqs) == 1 and len(chk) == 1 and chk[0] == ('truthy', 'is_in_check(_current_side)', not want_neg)
+                if ok:
+                    x, y = eqs[0][1], eqs[0][2]
+                    ok = y == 'generate_moves(*(this),_current_side,%s)' % x or x == 'generate_moves(*(this),_current_side,%s)' % y
         ctx.ob('C07.R5.decision', nm, bool(ok),
                '%s() = (no generated move for the side to move) && %sin check' % (nm, 'not ' if want_neg else ''), site=f.loc())
 
